@@ -222,8 +222,53 @@ func c17FuncObj(f *flow.Func) *types.Func {
 
 // c17CalleeFunc returns the static callee as *types.Func (nil otherwise).
 func c17CalleeFunc(f *flow.Func, call *ast.CallExpr) *types.Func {
-	o, _ := f.Callee(call).(*types.Func)
-	return o
+	if o, ok := f.Callee(call).(*types.Func); ok {
+		return o
+	}
+	// a method value held in a local that is assigned exactly once: h := x.m; h()
+	if sel := c17CallSel(f, call); sel != nil {
+		if s := f.Info.Selections[sel]; s != nil && s.Kind() == types.MethodVal {
+			fo, _ := s.Obj().(*types.Func)
+			return fo
+		}
+	}
+	return nil
+}
+
+// c17CallSel returns the selector expression x.m of a call x.m(..), also when the method value
+// was first stored in a local assigned exactly once (h := x.m; h(..)).
+func c17CallSel(f *flow.Func, call *ast.CallExpr) *ast.SelectorExpr {
+	if sel, ok := ast.Unparen(call.Fun).(*ast.SelectorExpr); ok {
+		return sel
+	}
+	id, ok := ast.Unparen(call.Fun).(*ast.Ident)
+	if !ok {
+		return nil
+	}
+	obj, ok := f.Info.Uses[id].(*types.Var)
+	if !ok || obj.IsField() {
+		return nil
+	}
+	var rhs []ast.Expr
+	ast.Inspect(f.Body, func(n ast.Node) bool {
+		if as, ok := n.(*ast.AssignStmt); ok {
+			for i, l := range as.Lhs {
+				if c17Obj(f, l) == types.Object(obj) {
+					if len(as.Lhs) == len(as.Rhs) {
+						rhs = append(rhs, as.Rhs[i])
+					} else {
+						rhs = append(rhs, nil)
+					}
+				}
+			}
+		}
+		return true
+	})
+	if len(rhs) != 1 || rhs[0] == nil {
+		return nil
+	}
+	sel, _ := ast.Unparen(rhs[0]).(*ast.SelectorExpr)
+	return sel
 }
 
 // c17StripConv removes parentheses and type conversions around an expression.
@@ -430,7 +475,28 @@ func c17Accept(c *core.Ctx) {
 		return
 	}
 	cons := fname(c17LL, "LimitListener", "Accept")
-	pm := parentMap(f.Body)
+	// Accept together with the same-package functions it calls (a block moved into a helper); the
+	// acquire / release helpers themselves are summarised, not looked into
+	bind := c17NewBind(f, 2)
+	isHelper := func(g *flow.Func) bool {
+		fo := c17FuncObj(g)
+		return fo != nil && (r.acqHelpers[fo] != nil || r.relHelpers[fo] != nil)
+	}
+	var bodies []*flow.Func
+	pm := map[ast.Node]ast.Node{}
+	for _, g := range bind.funcs {
+		if g != f && isHelper(g) {
+			continue
+		}
+		bodies = append(bodies, g)
+		for k, v := range parentMap(g.Body) {
+			pm[k] = v
+		}
+	}
+	var allCalls []*ast.CallExpr
+	for _, g := range bodies {
+		allCalls = append(allCalls, calls(g.Body, true)...)
+	}
 
 	acq := map[*ast.CallExpr]bool{}
 	rel := map[*ast.CallExpr]bool{}
@@ -438,7 +504,7 @@ func c17Accept(c *core.Ctx) {
 	var inner []*ast.CallExpr
 	var acqList []*ast.CallExpr
 	// deferred function literals are interpreted by the engine, so their calls count too
-	for _, call := range calls(f.Body, true) {
+	for _, call := range allCalls {
 		fo := c17CalleeFunc(f, call)
 		switch {
 		case fo != nil && r.acqHelpers[fo] != nil, c17IsSemCall(f, call, "AcquireWithContext", "Acquire"):
@@ -450,7 +516,7 @@ func c17Accept(c *core.Ctx) {
 			inner = append(inner, call)
 		case fo != nil && fo.FullName() == "(context.Context).Err":
 			// the receiver must be a field of the listener (its life-cycle context)
-			if sel, ok := ast.Unparen(call.Fun).(*ast.SelectorExpr); ok {
+			if sel := c17CallSel(f, call); sel != nil {
 				if fv := c17Field(f, sel.X); fv != nil && fv.Type().String() == "context.Context" {
 					ctxErr[call] = true
 				}
@@ -470,7 +536,7 @@ func c17Accept(c *core.Ctx) {
 		return
 	}
 	acqCall := acqList[0]
-	if len(enclosingLoops(f.Body, acqCall)) > 0 {
+	if eb := bind.enclosing(acqCall); eb != nil && len(enclosingLoops(eb.Body, acqCall)) > 0 {
 		c.Undecide("R-C17-1", cons+"|inner Accept only with a slot", pos(c, acqCall), "the acquire call sits in a loop: typestate not modelled")
 		return
 	}
@@ -575,9 +641,19 @@ func c17Accept(c *core.Ctx) {
 	}
 	var badInner []bad
 	innerStates := 0
+	inl := bind.inline(func(g *flow.Func, n ast.Node) bool {
+		call, ok := n.(*ast.CallExpr)
+		return ok && !isHelper(g) && (acq[call] || rel[call] || ctxErr[call] || call == inner[0])
+	})
 	res := analyze(c, f, flow.Config{
 		NoHavoc: true,
-		OnNode:  func(st *flow.State, n ast.Node) { latch(st) },
+		Inline: func(call *ast.CallExpr, callee *types.Func) *flow.Func {
+			if callee != nil && (r.acqHelpers[callee.Origin()] != nil || r.relHelpers[callee.Origin()] != nil) {
+				return nil
+			}
+			return inl(call, callee)
+		},
+		OnNode: func(st *flow.State, n ast.Node) { latch(st) },
 		AfterAssume: func(st *flow.State, cond ast.Expr, outcome bool) {
 			latch(st)
 		},
@@ -725,6 +801,31 @@ func c17Transfers(f *flow.Func, r *c17LLRoles, e ast.Expr, depth int) bool {
 		e = ast.Unparen(u.X)
 	}
 	switch x := e.(type) {
+	case *ast.CallExpr:
+		// a same-package helper that builds the wrapper: every return must transfer
+		fo := c17CalleeFunc(f, x)
+		if fo == nil || fo.Pkg() != f.Pkg.Types || depth > 1 {
+			return false
+		}
+		fd := declOf(f.Pkg, fo)
+		if fd == nil {
+			return false
+		}
+		g := flow.NewFunc(f.Pkg, fd)
+		n, ok := 0, true
+		ast.Inspect(fd.Body, func(nd ast.Node) bool {
+			if _, isLit := nd.(*ast.FuncLit); isLit {
+				return false
+			}
+			if rs, isRet := nd.(*ast.ReturnStmt); isRet {
+				n++
+				if len(rs.Results) != 1 || !c17Transfers(g, r, rs.Results[0], depth+1) {
+					ok = false
+				}
+			}
+			return true
+		})
+		return n > 0 && ok
 	case *ast.CompositeLit:
 		tv := f.Info.Types[x]
 		if tv.Type == nil || !types.Identical(tv.Type, r.connT) {
@@ -770,9 +871,91 @@ func c17Transfers(f *flow.Func, r *c17LLRoles, e ast.Expr, depth int) bool {
 		if len(rhs) != 1 {
 			return false
 		}
-		return c17Transfers(f, r, rhs[0], depth+1)
+		if c17Transfers(f, r, rhs[0], depth+1) {
+			return true
+		}
+		// field moved out of the literal: x := &wrapper{Conn: c}; x.release = <release>
+		lit := ast.Unparen(rhs[0])
+		if u, ok := lit.(*ast.UnaryExpr); ok && u.Op == token.AND {
+			lit = ast.Unparen(u.X)
+		}
+		cl, ok := lit.(*ast.CompositeLit)
+		if !ok {
+			return false
+		}
+		if tv := f.Info.Types[cl]; tv.Type == nil || !types.Identical(tv.Type, r.connT) {
+			return false
+		}
+		sets := c17ReleaseSets(f, r, obj)
+		return len(sets) == 1 && c17IsReleaseValue(f, r, sets[0])
 	}
 	return false
+}
+
+// c17ReleaseSets returns the right-hand sides of the assignments `x.release = v` (x the variable obj)
+// that are plain statements of the function body's top-level block or of the block in which obj
+// is defined (i.e. executed unconditionally after the construction).
+func c17ReleaseSets(f *flow.Func, r *c17LLRoles, obj types.Object) []ast.Expr {
+	var out []ast.Expr
+	pm := parentMap(f.Body)
+	var defBlock ast.Node
+	ast.Inspect(f.Body, func(n ast.Node) bool {
+		if as, ok := n.(*ast.AssignStmt); ok {
+			for _, l := range as.Lhs {
+				if id, ok := l.(*ast.Ident); ok && f.Info.Defs[id] == obj {
+					defBlock = pm[as]
+				}
+			}
+		}
+		return true
+	})
+	ast.Inspect(f.Body, func(n ast.Node) bool {
+		as, ok := n.(*ast.AssignStmt)
+		if !ok || len(as.Lhs) != len(as.Rhs) {
+			return true
+		}
+		for i, l := range as.Lhs {
+			sel, ok := ast.Unparen(l).(*ast.SelectorExpr)
+			if !ok || c17Field(f, sel) != r.relField || c17Obj(f, sel.X) != obj {
+				continue
+			}
+			if pm[as] == defBlock {
+				out = append(out, as.Rhs[i])
+			} else {
+				out = append(out, nil) // conditional initialisation: not accepted
+			}
+		}
+		return true
+	})
+	return out
+}
+
+// c17FreshWrapper: obj is a local defined exactly once, from a composite literal of the wrapper type.
+func c17FreshWrapper(f *flow.Func, r *c17LLRoles, obj types.Object) bool {
+	n, fresh := 0, false
+	ast.Inspect(f.Body, func(nd ast.Node) bool {
+		as, ok := nd.(*ast.AssignStmt)
+		if !ok || len(as.Lhs) != len(as.Rhs) {
+			return true
+		}
+		for i, l := range as.Lhs {
+			if c17Obj(f, l) != obj {
+				continue
+			}
+			n++
+			e := ast.Unparen(as.Rhs[i])
+			if u, ok := e.(*ast.UnaryExpr); ok && u.Op == token.AND {
+				e = ast.Unparen(u.X)
+			}
+			if cl, ok := e.(*ast.CompositeLit); ok {
+				if tv := f.Info.Types[cl]; tv.Type != nil && types.Identical(tv.Type, r.connT) {
+					fresh = true
+				}
+			}
+		}
+		return true
+	})
+	return n == 1 && fresh
 }
 
 // c17IsReleaseValue: a method value of a release helper, or a func literal calling one.
@@ -1015,8 +1198,8 @@ func c17Conn(c *core.Ctx) {
 		if fo == nil || fo.FullName() != "(*sync.Once).Do" || len(call.Args) != 1 {
 			return false
 		}
-		sel, ok := ast.Unparen(call.Fun).(*ast.SelectorExpr)
-		if !ok {
+		sel := c17CallSel(ff, call)
+		if sel == nil {
 			return false
 		}
 		fld := c17Field(ff, sel.X)
@@ -1070,8 +1253,8 @@ func c17Conn(c *core.Ctx) {
 			if fo == nil || fo.FullName() != "(net.Conn).Close" {
 				return false
 			}
-			sel, ok := ast.Unparen(call.Fun).(*ast.SelectorExpr)
-			if !ok {
+			sel := c17CallSel(f, call)
+			if sel == nil {
 				return false
 			}
 			recv := ast.Unparen(sel.X)
@@ -1177,6 +1360,23 @@ func c17Conn(c *core.Ctx) {
 				if kv, ok := pm[id].(*ast.KeyValueExpr); ok && kv.Key == ast.Expr(id) {
 					okRefs++
 					return true
+				}
+				// initialisation by assignment right after construction: x := &wrapper{..}; x.release = <release>
+				if sel, ok := pm[id].(*ast.SelectorExpr); ok && sel.Sel == id {
+					if as, ok := pm[sel].(*ast.AssignStmt); ok {
+						isLHS := false
+						for _, l := range as.Lhs {
+							if ast.Unparen(l) == ast.Expr(sel) {
+								isLHS = true
+							}
+						}
+						if obj := c17Obj(ff, sel.X); isLHS && obj != nil && c17FreshWrapper(ff, r, obj) {
+							if sets := c17ReleaseSets(ff, r, obj); len(sets) == 1 && c17IsReleaseValue(ff, r, sets[0]) {
+								okRefs++
+								return true
+							}
+						}
+					}
 				}
 				// inside an accepted Once.Do call
 				for p := pm[id]; p != nil; p = pm[p] {
